@@ -64,7 +64,7 @@ Proof.
   cbn [app nth_or0 nth skipn].
   rewrite (len16_recompose _ Hp).
   rewrite firstn_all2 by (unfold lenN; rewrite Nat2N.id; lia).
-  change (N.land 225 31) with 1. change (N.land 1 31) with 1.
+  change (N.land 225 31) with 1.
   cbn [N.eqb Pos.eqb andb negb].
   replace (16 + lenN sps + lenN pps <? 13) with false by (symmetry; apply N.ltb_ge; lia).
   replace (16 + lenN sps + lenN pps <? 13 + lenN sps) with false by (symmetry; apply N.ltb_ge; lia).
@@ -118,7 +118,7 @@ Proof.
   cbn [N.eqb Pos.eqb andb negb].
   change (N.to_nat (N.land 225 31)) with 1%nat.
   rewrite (read_ps_list_one sps _ Hs). cbn [bind].
-  change (N.to_nat (N.land 1 31)) with 1%nat.
+  change (N.to_nat 1) with 1%nat.
   rewrite (read_ps_list_one pps [] Hp). reflexivity.
 Qed.
 
